@@ -9,6 +9,8 @@ import (
 	"testing"
 
 	"github.com/pilosa/pilosa/pql"
+	"github.com/pilosa/pilosa/roaring"
+	"github.com/pilosa/pilosa/syswrap"
 )
 
 func vgfWitnessFragment(t *testing.T, kind, cache string, cacheSize uint32, maxOpN int) (*fragment, func()) {
@@ -303,4 +305,47 @@ func TestVerifWitness_DF5(t *testing.T) {
 	if changed, err := f.clearRow(1); err != nil || changed {
 		t.Fatalf("clearRow(1) on a row that never held a bit = (%v,%v), want (false,nil)", changed, err)
 	}
+}
+
+func vgfFileEqualsStorage(t *testing.T, f *fragment, what string) {
+	t.Helper()
+	data, err := os.ReadFile(f.path)
+	if err != nil {
+		t.Fatal(err)
+	}
+	dec := roaring.NewFileBitmap()
+	if err := dec.UnmarshalBinary(data); err != nil {
+		t.Fatal(err)
+	}
+	if got, want := dec.Slice(), f.storage.Slice(); !vgfEqU(got, want) {
+		t.Fatalf("%s: the data file decodes to %v, memory holds %v (a clean restart loses the difference)", what, got, want)
+	}
+}
+
+// DF6: importRoaring never reopens the data file. Over the open-file limit (syswrap max file count) the file is closed
+// between operations and the op-log writer is nil, so the roaring import changes memory but is not logged.
+func TestVerifWitness_DF6(t *testing.T) {
+	syswrap.SetMaxFileCount(0)
+	defer syswrap.SetMaxFileCount(vgfDefaultMaxFileCount)
+	f, done := vgfWitnessFragment(t, vgfSet, CacheTypeRanked, 100, defaultFragmentMaxOpN)
+	defer done()
+	f.mustSetBits(0, 0)
+	vgfFileEqualsStorage(t, f, "after setBit")
+	if err := f.importRoaring(context.Background(), vgfPilosaRoaring([]uint64{1}, false), false); err != nil {
+		t.Fatal(err)
+	}
+	vgfFileEqualsStorage(t, f, "after importRoaring over the file limit")
+}
+
+// DF7: over the open-file limit a snapshot triggered in the middle of a write operation (opN > MaxOpN) closes the data
+// file again (openStorage: mustClose -> safeClose, OpWriter = nil); the bits the operation writes afterwards are not logged.
+func TestVerifWitness_DF7(t *testing.T) {
+	syswrap.SetMaxFileCount(0)
+	defer syswrap.SetMaxFileCount(vgfDefaultMaxFileCount)
+	f, done := vgfWitnessFragment(t, vgfBSI, "", 0, 2)
+	defer done()
+	if _, err := f.setValue(0, 10, 1000); err != nil {
+		t.Fatal(err)
+	}
+	vgfFileEqualsStorage(t, f, "after setValue(0, 1000) with MaxOpN=2 over the file limit")
 }
